@@ -77,7 +77,7 @@ def reserialise_case(case):
             rid0 += n
             spec = {"codec": "UNCOMPRESSED", "columns": cols, "row_groups": [n], "column_orders": True, "created_by": "parquet-mr version 1.12.3 (build abc)",
                     # (a key may repeat: key_value_metadata is a list in the format)
-                    "kv": [("writer.note", "kept verbatim \u00e9"), ("k%d" % j, "v"), ("dup", "first"), ("between", "x"), ("dup", "second")] if j == 0 else [("writer.note", "kept verbatim \u00e9")]}
+                    "kv": [("writer.note", "kept verbatim \u00e9"), ("k%d" % j, "v"), ("dup", "first"), ("between", "x"), ("dup", "second"), ("flag-without-value", None)] if j == 0 else [("writer.note", "kept verbatim \u00e9")]}
             data, fmd = W.build_file(spec)
             p = os.path.join(root, "part.%d.parquet" % j)     # the naming append / renumbering expect
             with open(p, "wb") as f:
@@ -104,8 +104,8 @@ def reserialise_case(case):
                 if a != b:
                     res["failures"].append({"kind": "value_changed", "path": what + "." + fld, "expected": repr(a)[:80], "got": "<absent>" if m.get(fld) is None else repr(b)[:80], **ctx})
             from collections import Counter
-            kv_src = Counter((e["key"], e["value"]) for e in (src.get("key_value_metadata") or []))
-            kv_got = Counter((e["key"], e["value"]) for e in (m.get("key_value_metadata") or []))
+            kv_src = Counter((e["key"], e.get("value")) for e in (src.get("key_value_metadata") or []))
+            kv_got = Counter((e["key"], e.get("value")) for e in (m.get("key_value_metadata") or []))
             for (k_, v_), n_ in kv_src.items():
                 if kv_got.get((k_, v_), 0) < n_ and not (what.startswith("update") and k_ in (b"k0",)):
                     res["failures"].append({"kind": "value_changed", "path": what + ".key_value_metadata[%r]" % k_, "expected": repr(v_)[:60],
